@@ -223,11 +223,55 @@ func ruleRejectBeforeMutate(r *Report) {
 					r.BadPath(rule, shortFunc(fn)+"/"+et+"/on-mismatch", ret.Pos(), et+" is returned on a path that did not find "+cmpField+" different from the requested value", path)
 				}
 			}
-			// and a mismatch cannot continue into a normal open
-			// (the != edge leads only to that return)
+			// and a mismatch cannot continue into a normal open: from the != edge no successful return
+			// and no call that writes files is reachable (adopting the requested value instead of
+			// refusing — "the limit can be raised while everything is still in the first file" — changes
+			// the header, so that the other component, or a later open with the original settings, is refused)
+			cmpField := "Header.MaxFileSize"
+			if et == "types.ErrIndexWrongBitSize" {
+				cmpField = "Header.BucketsBits"
+			}
+			succ, _ := classifyReturns(fn)
+			okRets := instrSet(succ)
+			for _, ed := range condEdges(fn, func(cond ssa.Value) (bool, bool) {
+				bo, ok := cond.(*ssa.BinOp)
+				if !ok || (bo.Op != token.NEQ && bo.Op != token.EQL) {
+					return false, false
+				}
+				if fieldOfLoad(bo.X) != cmpField && fieldOfLoad(bo.Y) != cmpField {
+					return false, false
+				}
+				other := bo.Y
+				if fieldOfLoad(bo.Y) == cmpField {
+					other = bo.X
+				}
+				if !derives(other, flowOpts{}, func(v ssa.Value) bool { _, isParam := v.(*ssa.Parameter); return isParam }) {
+					return false, false
+				}
+				return bo.Op == token.NEQ, bo.Op == token.EQL
+			}) {
+				ed := ed
+				target := func(in ssa.Instruction) bool {
+					if okRets[in] {
+						return true
+					}
+					if c, ok := in.(ssa.CallInstruction); ok {
+						if _, isDefer := in.(*ssa.Defer); !isDefer && es.callWrites(c) {
+							return true
+						}
+					}
+					return false
+				}
+				reach, path := Search{Fn: fn, FromEdge: &ed, Target: target}.Run()
+				if reach {
+					r.BadPath(rule, shortFunc(fn)+"/"+et+"/mismatch-always-refused", instrPos(lastInstr(ed.From)), "after finding "+cmpField+" different from the requested value the open can still succeed or write files (the mismatch is adopted instead of refused): the header changes, the other component or a later open with the original settings is then refused, and positions are decoded with a limit they were not written under", path)
+				} else {
+					r.Ok(rule, shortFunc(fn)+"/"+et+"/mismatch-always-refused", instrPos(lastInstr(ed.From)), "a mismatch always ends in the refusal")
+				}
+			}
 		}
 	}
-	r.Min(rule, 6)
+	r.Min(rule, 9)
 }
 
 func ruleTranslateOrder(r *Report) {
@@ -243,7 +287,8 @@ func ruleTranslateOrder(r *Report) {
 	}
 	var displace, install ssa.CallInstruction
 	for _, m := range moves {
-		if _, isP := m.Common().Args[0].(*ssa.Parameter); isP {
+		// the displacing move takes the index path translateIndex was given (possibly handed on to a helper)
+		if derivesUp(m.Common().Args[0], func(v ssa.Value) bool { p, isP := v.(*ssa.Parameter); return isP && p.Parent() == fn }, 0) {
 			displace = m
 		} else {
 			install = m
@@ -448,7 +493,7 @@ func init() {
 		ruleScanFromFirstFile(r)
 		ruleIterateAll(r)
 		// the re-bucketed index is written and read with the ordinary index code
-		r.support([]string{"layout", "pos-codec", "splice", "config-wiring", "rescan-applies-all", "deleted-check", "tail-recovery", "meta-atomic", "header-persist", "pool-flush-complete", "movefiles-order", "error-wrap", "index-open-limit", "open-length", "pos-width", "header-preserved", "cancel-not-completion", "completion", "limit-component", "iter-errors"})
+		r.support([]string{"layout", "pos-codec", "splice", "config-wiring", "rescan-applies-all", "deleted-check", "tail-recovery", "meta-atomic", "header-persist", "pool-flush-complete", "movefiles-order", "error-wrap", "index-open-limit", "open-length", "pos-width", "header-preserved", "cancel-not-completion", "completion", "limit-component", "iter-errors", "errors-not-dropped", "fncb-summary", "flush-error-returned", "close-reports-errors"})
 	},
 		"Decides structural necessary conditions of 're-bucketing keeps contents; mismatching file sizes are refused', not equality of contents for all (old,new) pairs: translateIndex starts only on the errors.As(ErrIndexWrongBitSize) edge of index.Open's error and the index is reopened after it; between reading the header and refusing with ErrIndexWrongBitSize/ErrIndexWrongFileSize/ErrPrimaryWrongFileSize no call that may (transitively) modify files is made, and the refusal sits on the header-value != requested edge; in translateIndex the old files are displaced only after both indexes closed successfully, the new ones installed after that, the displaced copy deleted only after a successful install; every record the old iterator returns reaches newIndex.Put with the key read from the primary at the record's location and the location unchanged. Not covered: the crash clause (the two MoveFiles are not atomic — observation O-3), contents equality.",
 		"file-effect summaries are computed over the module only (a table of os/bufio primitives); everything else outside the module is assumed not to modify store files")
